@@ -1,6 +1,6 @@
 import c12_driver
 PROPS = {
-    "C12": dict(variant="tsan", cases=(70, 700), timeout=90, chunk=1, level="exploration", min_nontrivial=30,
+    "C12": dict(variant="tsan", cases=(70, 700), timeout=45, chunk=1, level="exploration", min_nontrivial=30,
                 driver=c12_driver.driver,
                 rule="case = one grid state reached by a random legal history of 0..5 (thorough 0..7) steps on a random configuration (all five families, "
                      "custom-tabulated rules, transforms, conformal maps, limits, 0..3 outputs; state classes fresh / loaded / pending refinement / merged / "
